@@ -249,8 +249,16 @@ func (e *Engine) registerModels() {
 	}
 	m["fmt.Sprint"] = func(in *Interp, fn *ssa.Function, a []Value) Value {
 		var out []SElem
-		for _, x := range a[0].(Slice).v {
-			out = append(out, in.formatArg(x.(Iface), 'v').elems...)
+		prevString := true
+		for i, x := range a[0].(Slice).v {
+			iv := x.(Iface)
+			_, isString := iv.v.(Str)
+			// fmt.Sprint: spaces are added between operands when neither is a string
+			if i > 0 && !isString && !prevString {
+				out = append(out, SElem{b: in.tt.BV(8, ' ')})
+			}
+			prevString = isString
+			out = append(out, in.formatArg(iv, 'v').elems...)
 		}
 		return Str{elems: out}
 	}
